@@ -30,7 +30,7 @@ class C12(EngineProp):
     lean_modules = ['RSocketModel.Props.C12', 'RSocketModel.Props.C12Source']
     profiles = ['hostile', 'hostile', 'legal']
     technique = 'Lean 4 proof (totality + locality of the engine step) + event-level differential correspondence on hostile frame sequences, and byte-level robustness runs'
-    level_text = ('c12_dispatch_tables_match_source (the model\'s by-type dispatch, stream-opening and fragmentable frame types and its Requester / Disposable classification of the six handler classes equal the tables regenerated from rsocket_base.py / frame.py / handlers on every run), c12_sends_local, c12_other_streams_untouched and c12_other_partial_frames_untouched (for every well-formed state, received frame and handler behaviour: the registration and the half-reassembled frames of every other stream are exactly what they were), c12_handler_failure_contained, c12_probe_served and c12_total are kernel-checked on the engine model (the state invariant WF is proved preserved by every entry point); scripts mixing legal traffic with frames of any type on any stream, raw messages (serialised frames as is, truncated, IGNORE-flagged and truncated, bit-flipped, unknown type, random bytes, empty — decoded on the model side by the codec model of C02 and then dispatched by the engine model) and raising handlers are run against a real endpoint, replayed on the model, and followed by a probe request that must be answered; an independent structural check requires that no message cut inside a request frame\'s fixed fields reaches a request handler.')
+    level_text = ('c12_invalid_marker_never_dispatched and the other rules of Props/C12Source.lean are read off the decision logic of RSocketBase._handle_next_frame as compiled from rsocket_base.py on every run. c12_dispatch_tables_match_source (the model\'s by-type dispatch, stream-opening and fragmentable frame types and its Requester / Disposable classification of the six handler classes equal the tables regenerated from rsocket_base.py / frame.py / handlers on every run), c12_sends_local, c12_other_streams_untouched and c12_other_partial_frames_untouched (for every well-formed state, received frame and handler behaviour: the registration and the half-reassembled frames of every other stream are exactly what they were), c12_handler_failure_contained, c12_probe_served and c12_total are kernel-checked on the engine model (the state invariant WF is proved preserved by every entry point); scripts mixing legal traffic with frames of any type on any stream, raw messages (serialised frames as is, truncated, IGNORE-flagged and truncated, bit-flipped, unknown type, random bytes, empty — decoded on the model side by the codec model of C02 and then dispatched by the engine model) and raising handlers are run against a real endpoint, replayed on the model, and followed by a probe request that must be answered; an independent structural check requires that no message cut inside a request frame\'s fixed fields reaches a request handler.')
     level_note = 'Trusted: as C07; out-of-domain regions of the decoder are robustness-checked only.'
     design_ref = '§5 C12'
     rule = ('scripts mixing legal traffic with frames of any type on any stream (unknown, finished, live, 0), wrong types for the role, duplicate ids, fragments of a different type, '
